@@ -57,6 +57,30 @@ def check(repo, rep, tier):
             from ..hints import Path
             paths = paths_to(fi.node, c) or [Path()]
         bad, und, ncases = [], [], 0
+        # a construction that follows an accumulating loop is decided by induction over the loop (sa/loopinv.py): the claim
+        # is about the state after any number of iterations, which no single pass through the body represents
+        if fi is not None and isinstance(fi.node, ast.FunctionDef):
+            loops_ = [s for s in fi.node.body if isinstance(s, ast.For)]
+            stmt_ = c
+            while getattr(stmt_, "_parent", None) is not None and stmt_ not in fi.node.body:
+                stmt_ = stmt_._parent
+            used_ = {x.id for a in c.args for x in ast.walk(a) if isinstance(x, ast.Name)}
+            lp_ = [l for l in loops_ if stmt_ in fi.node.body and fi.node.body.index(l) < fi.node.body.index(stmt_)
+                   and used_ & {x.id for s in l.body for x in ast.walk(s) if isinstance(x, ast.Name) and not isinstance(x.ctx, ast.Load)}]
+            if len(lp_) == 1:
+                from ..loopinv import prove
+
+                def _diff(v, site2):
+                    return v._p(site2.args[0]) - v._p(site2.args[1])
+                verdict, detail = prove(fi.node, lp_[0], c, _diff, base_env(fi))
+                term = "%s after `for %s in %s`" % (norm(c), norm(lp_[0].target), norm(lp_[0].iter)[:40])
+                if verdict == "ok":
+                    r1.ok(where, fq, term, "lock-step by induction: " + detail)
+                    continue
+                if verdict == "violation":
+                    r1.violation(where, fq, term + "  " + detail, "the value this object reports differs from what its wire expression "
+                                 "evaluates to", "%s/%s" % (fq, norm(c)[:70]))
+                    continue
         for path in paths:
             def assumptions(path=path):
                 v = Valuer(base_env(fi) if fi is not None else {})
